@@ -92,6 +92,9 @@ pub enum Flavour {
     Sorted,
     /// one treap, range operations only after a build-up: deep lazy stacks
     LazyHeavy,
+    /// one treap grown to 80..220 elements (with spine priorities: depth = size) before a
+    /// short lazy-heavy history: depth and size far beyond what short histories reach
+    Deep,
 }
 
 pub struct Cfg {
@@ -101,14 +104,28 @@ pub struct Cfg {
     pub weights: [u32; 13],
     pub slots: usize,
     pub manual_prio: Strategy,
+    pub max_len: usize,
 }
 
 pub fn gen_cfg(rng: &mut Rng) -> Cfg {
-    let flavour = match rng.below(10) {
-        0..=4 => Flavour::General,
-        5..=7 => Flavour::Sorted,
-        _ => Flavour::LazyHeavy,
+    let flavour = match rng.below(100) {
+        0..=48 => Flavour::General,
+        49..=77 => Flavour::Sorted,
+        78..=97 => Flavour::LazyHeavy,
+        _ => Flavour::Deep,
     };
+    if flavour == Flavour::Deep {
+        let build_up = rng.urange(80, 220);
+        return Cfg {
+            flavour,
+            ops: build_up + rng.urange(8, 25),
+            build_up,
+            weights: [0, 3, 1, 2, 6, 3, 0, 12, 5, 3, 3, 1, 1],
+            slots: 1,
+            manual_prio: *rng.pick(&STRATEGIES),
+            max_len: 256,
+        };
+    }
     // op order: from_item, insert_at, manual_insert, remove_at, split_at, split_by, merge,
     //           range_modify, range_agg, first, last, size, collect
     let weights = match (flavour, rng.below(3)) {
@@ -127,6 +144,7 @@ pub fn gen_cfg(rng: &mut Rng) -> Cfg {
         weights,
         slots: if flavour == Flavour::LazyHeavy { 1 } else { rng.urange(1, POOL) },
         manual_prio: *rng.pick(&STRATEGIES),
+        max_len: MAX_LEN,
     }
 }
 
@@ -154,7 +172,15 @@ pub fn next_op(rng: &mut Rng, cfg: &Cfg, model: &[Vec<(u32, u64)>], step: usize)
     let slot = rng.usize_below(cfg.slots);
     let m = &model[slot];
     if step < cfg.build_up {
-        let pos = rng.usize_below(m.len() + 1);
+        let pos = if cfg.flavour == Flavour::Deep {
+            match rng.below(10) {
+                0..=5 => m.len(),
+                6 | 7 => 0,
+                _ => rng.usize_below(m.len() + 1),
+            }
+        } else {
+            rng.usize_below(m.len() + 1)
+        };
         return Some(Op::InsertAt { slot, pos, value: value_for(rng, cfg, m, pos) });
     }
     let kind = rng.weighted(&cfg.weights);
